@@ -3,6 +3,10 @@
 HOOK_COMMITS = ["ed224dc", "bc3b859", "c46a242"]
 
 ENGINES = [
+    {"name": "vt", "path": "specs/VouchedTime.tla specs/VouchedTimeApa.tla specs/VtTrace.tla lib/engines/vt.py harness/src/vt.rs",
+     "serves_properties": ["C14"],
+     "kind_free_text": "TLA+ window predicate over integers + limb arithmetic; Apalache symbolic check over the full 64-bit range, "
+     "TLC exhaustive check of a scaled copy; boundary-biased triples executed on the real VouchedTime; TLC trace validation on limbs"},
     {"name": "tlv", "path": "specs/RoughTlv.tla specs/TlvMC.tla specs/TlvTrace.tla lib/engines/tlv.py harness/src/tlv.rs",
      "serves_properties": ["C11", "C12"],
      "kind_free_text": "pure TLA+ definition of the Roughtime TLV layout (Accepts / Pairs / Encode / size limits in limbs) + "
@@ -69,6 +73,21 @@ TLV_NOTE = ("Bounded: all byte strings of <= 4 (5) words over 10 word values (0,
             "(> 2^31 pairs) is not exercised. Values that only report a length (never written) are used for the i32::MAX boundaries.")
 
 CHECKS = {
+    "C14": {
+        "engine": "vt",
+        "technique": "TLA+ spec checked symbolically by Apalache over the full 64-bit range (and by TLC on a scaled copy); TLC trace validation of real VouchedTime verdicts",
+        "text": "VouchedTime.tla states the property over mathematical integers (SpecAccept) and transcribes the code's window test; "
+                "Apalache proves, for all local times 0..PrimitiveDateTime::MAX and all 64-bit base times, that the transcription equals "
+                "the property, that the 30-bit-limb predicate used for trace validation equals it too, and finds the wrap-around witness "
+                "for the pre-fix formula (finding F4). About 3000 (quick) / 300000 (thorough) boundary-biased triples - both window edges "
+                "+-2 at 20 base anchors incl. 0, 2^63, 2^64-k, sub-millisecond parts, the wrap region, local times before the epoch by "
+                "less than 1 ms (finding F5), calendar limits, vouchers for another value / from other parameters / with a flipped bit - "
+                "are run through the real new / check / get_local_time / now; TLC decides each recorded verdict with the limb predicate.",
+        "design_ref": "DESIGN.md section 6, C14",
+        "note": "Pure arithmetic: the weakest fit for a state-machine technique (DESIGN.md section 7); the unbounded part is Apalache's "
+                "symbolic check (SMT), the binding is sampled. The window is decided on floor(local ms), the epoch test on the exact "
+                "local time. Trusts raffle's voucher check (voucher kinds are fixed by the generator), Apalache/Z3, TLC.",
+    },
     "C11": {
         "engine": "tlv",
         "technique": "TLA+ layout definition + TLC model checking of Encode lemmas; enumerated pair lists executed on the real MessageWrapper and TLC-validated",
